@@ -30,6 +30,11 @@ CHECKS = {
         technique="stateless deviation-bounded exploration (<=2 of drop/dup/delay 2,8,70 ticks on any data or ack datagram; blackout and long-frame parameters) of the real stack; monitor with virtual timestamps relating every callback to the peer's delivery log and to the send time",
         text="All <=2-deviation schedules over 36 (quick) / ~500 (thorough) configurations of direction x retry mode x single/fragmented x ack/data blackout x owner stall; cb(True) is checked against the peer application's delivery log at that instant, cb(False) against the timeout, callback counts at quiescence, and assembled == acked + timeouts + pending at every tick on both ends.",
         note="forged/stale ack fields are covered by C01/C04 (they are rejected before ack processing); <=2 deviations; timeout 1.0 s"),
+    "C16": dict(
+        engine="enum", category="exploration", design="5/C16",
+        technique="bounded-exhaustive enumeration of (pattern, path) over the documented grammar against a reference matcher on segment lists; ordered route-table pairs through Router.dispatch",
+        text="All 1249 patterns (<=4 segments, optional final ?,+,*) x all paths of <=4 (quick) / 5 (thorough) segments over an alphabet with prefix/extension/dot look-alikes, empty segments and trailing slashes: match verdict, bound values, no-empty-:name; plus every ordered pair of small patterns in one table / across two methods through dispatch (first match, method separation, 404).",
+        note="paths containing '//' are UNSPECIFIED for the match verdict (documentation silent); alphabets are small-scope"),
 }
 
 NOT_YET = {
